@@ -456,6 +456,7 @@ func runC10(env *Env) {
 	threeTokensOneTask(env, rep, "C10-flows", 4)
 	boundaryReentryAfterInterruption(env, rep, "C10-flows", 4)
 	boundaryTwoHosts(env, rep, "C10-flows", 6)
+	boundaryLateAnswerAfterReentry(env, rep, "C10-flows", 4)
 	env.WriteCases(rep, "", "Corr.C10corr", "list (nat * nat) * list nat * nat * list nat * nat", items, "c10_mismatches")
 	env.WriteReport(rep)
 }
@@ -785,5 +786,92 @@ func boundaryTwoHosts(env *Env, rep *Report, key string, rounds int) {
 			}
 			in.Close()
 		}
+	}
+}
+
+// boundaryLateAnswerAfterReentry: a sub-process H (one task HT inside) with an interrupting boundary event whose
+// exception flow leads back into H. The event interrupts the first activation while HT waits; the token comes back
+// (the engine starts the content of the new activation once the interrupted one's inner token is gone). Then the
+// FIRST request of HT -- the interrupted activation's -- is answered: nothing may continue behind H (that activation
+// was withdrawn, "even if the task is answered afterwards"), HT is requested again for the live activation, and only
+// that request's answer lets the normal flow continue, once.
+func boundaryLateAnswerAfterReentry(env *Env, rep *Report, key string, rounds int) {
+	p := &Prog{}
+	p.Node("start", "start")
+	p.Node("xor", "M")
+	h := p.Node("sub", "H")
+	h.Sub = &Prog{nflow: 600}
+	h.Sub.Node("start", "hs")
+	h.Sub.Node("task", "HT")
+	h.Sub.Node("end", "he")
+	h.Sub.Flow("hs", "HT", "")
+	h.Sub.Flow("HT", "he", "")
+	p.Node("task", "N")
+	p.Node("end", "end")
+	p.Flow("start", "M", "")
+	p.Flow("M", "H", "")
+	p.Flow("H", "N", "")
+	p.Flow("N", "end", "")
+	b := p.Node("boundary", "B0")
+	b.Attrs = `attachedToRef="H" cancelActivity="true"`
+	b.Inner = `<bpmn:signalEventDefinition id="bd0" signalRef="s0"/>`
+	p.Node("task", "X0")
+	p.Flow("B0", "X0", "")
+	p.Flow("X0", "M", "")
+	xmlText := p.XML(`<bpmn:signal id="s0" name="s0"/>`)
+	for r := 0; r < rounds && !rep.Saturated(); r++ {
+		cs := fmt.Sprintf("sub-process with an interrupting boundary event whose exception flow leads back into it: interrupted while its inner task waits, re-entered, then the interrupted activation's inner task is answered, then the live one's (round %d)", r)
+		env.Current(cs)
+		defs, err := ParseDefs(xmlText)
+		must(err)
+		in, err := StartInst(defs, InstOpt{})
+		must(err)
+		rep.Evaluations++
+		rep.Nontrivial++
+		rep.Count("late_answer_after_reentry")
+		problem := ""
+		var old bpmn.TaskTrace
+		if !in.WaitUntil(tmoStep, func(l []Ev) bool { return countEv(l, "task", "HT") >= 1 && countEv(l, "listening", "B0") >= 1 }) {
+			problem = "HT not requested with the boundary event listening"
+		} else if old = in.WaitTask("HT", tmoStep); old == nil {
+			problem = "no request of HT is pending"
+		} else {
+			in.Signal("s0")
+			if !in.Answer("X0", tmoStep) {
+				problem = "the interrupting event did not lead to the exception flow"
+			} else if !in.WaitUntil(tmoStep, func(l []Ev) bool { return countEv(l, "visit", "H") >= 2 && countEv(l, "listening", "B0") >= 2 }) {
+				problem = "the token did not come back into H"
+			}
+		}
+		if problem == "" {
+			time.Sleep(time.Duration(r%3) * settle)
+			old.Do()
+			if !in.WaitUntil(tmoStep, func(l []Ev) bool { return countEv(l, "task", "HT") >= 2 }) {
+				problem = "the interrupted activation's inner task was answered: HT was not requested for the live activation"
+			} else {
+				time.Sleep(3 * settle)
+				if n := countEv(in.Log(), "task", "N"); n != 0 {
+					problem = fmt.Sprintf("the inner task of the interrupted activation was answered: the normal flow continued (%d requests of N) while the live activation's inner task still waits", n)
+				}
+			}
+		}
+		if problem == "" {
+			if !in.Answer("HT", tmoStep) {
+				problem = "no request of HT is pending for the live activation"
+			} else if !in.Answer("N", tmoStep) {
+				problem = "the live activation's inner task was answered, the normal flow did not continue"
+			} else {
+				time.Sleep(settle)
+				if n := countEv(in.Log(), "task", "N"); n != 1 {
+					problem = fmt.Sprintf("N requested %d times, expected once", n)
+				} else if !in.WaitCease(tmoStep) {
+					problem = "all tasks answered, the instance did not complete"
+				}
+			}
+		}
+		if problem != "" {
+			rep.Violate(key, cs, problem+"; log: "+logString(in.Log()))
+		}
+		in.Close()
 	}
 }
